@@ -222,6 +222,13 @@ theorem step_rc (s : PState) (op : Op) (h : RC s) : RC (step s op) := by
     cases hk : o.kind <;> cases hr : o.ref <;> cases hk2 : o2.kind <;> cases hr2 : o2.ref <;> simp only [] <;> try exact hq
     rename_i p p2; obtain ⟨c, id⟩ := p; obtain ⟨c2, id2⟩ := p2
     simp only [emit, bal_append, nc]; simpa using hq
+  | followsGuard k k2 =>
+    simp only [step]
+    cases hf : find k s.owners <;> cases hf2 : find k2 s.owners <;> simp only [] <;> try exact hq
+    rename_i o o2
+    cases hk : o.kind <;> cases hr : o.ref <;> cases hk2 : o2.kind <;> cases hr2 : o2.ref <;> simp only [] <;> try exact hq
+    rename_i p t2 p2; obtain ⟨c, id⟩ := p; obtain ⟨c2, id2⟩ := p2
+    simp only [emit, bal_append, nc]; simpa using hq
   | current t k =>
     simp only [step]
     obtain ⟨h1, h2⟩ := currentRef_spec q s t
